@@ -1,26 +1,26 @@
 import json,sys
 props={json.loads(l)['id']:l.strip() for l in open('/verif/properties.jsonl')}
 earlier={
-"C01":["dynamic Value::Struct serializer omits fields whose value is None","map serializers fail fast when the map itself sits at depth 32"],
-"C02":["reply forwarded when the caller still tracks the serial instead of consulting the aborted flag","queue of synthesized InvalidService replies keyed by caller serial"],
-"C03":["object registered before the fallible reply, recorded for the owner after it","subscribe_event fast path answers Ok before the service lookup"],
-"C04":["disconnect leaves an emptied subscriber set in the service's event map","subscribed_conn_ids() chains per-event sets without de-duplication"],
-"C05":["overflow check hoisted above the ownership check in add_capacity","SendItemError::ReceiverClosed handled like exhausted capacity"],
-"C06":["broker-side connection stops reading from the client while a flush to it is pending","broker's SerialMap restarts numbering when empty"],
-"C07":["Deserializer::len() starts its skip walker one level too deep","deserialize_string allocates the claimed length before checking the remaining input"],
-"C08":["value-length 0 no longer rejected in value-carrying frames","message-side varint decoder clamps to the bytes remaining"],
-"C09":["IntrospectionEntry::remove_conn returns early for connections that never registered the type","num_connections decremented before the 'connection still known' guard"],
-"C10":["per-connection de-duplication set updated before the filter/scope check in emit_bus_event","refused StartBusListener (already started) overwrites the active scope"],
-"C11":["Channel::check_close treats a Closed end like an Unclaimed one","overflow check before the ownership check in add_capacity"],
-"C12":["down-converter counts every 1.20 container level twice","1.16 gate for AbortFunctionCall moved to the message handler; disconnect path no longer checks it"],
-"C13":["single-segment fast path in convert_bytes2_to_bytes1","convert_vec2_to_vec1 patches a one-byte length in place whenever the count fits u8"],
-"C14":["Buffered::send_poll_flush returns Ready when its own queue is empty without flushing the inner transport","next_message fast path for frames >=64 KiB forgets to reset the cached length"],
-"C15":["Connection::client_error no longer clears flush_transport","drain_transport split into two phases; a broker Shutdown received during the first is forgotten"],
-"C16":["unknown field whose value is None is skipped instead of kept by a fallback struct"],
-"C17":["LinkResolver::resolve uses an expect-ing lookup instead of the fallible one","span of an invalid escape code computed as two bytes"],
-"C18":["inline struct/enum bodies collapse to {} when they hold only a fallback","fn_def prints ok only when it has a comment"],
-"C19":["AnyObject::service_destroyed returns before removing the per-service record when the object is incomplete","specific-object entries no longer check the object UUID of service events"],
-"C20":["referenced types de-duplicated by lexical id instead of by layout (rejected: only shows on graphs with two different descriptions under one schema+type name, which upstream refuses)"],
+"C01":["serialize_unit_enum fast path loses the payload's depth increment (unit enum on level 32)","dynamic Value::Struct serializer omits fields whose value is None","map serializers fail fast when the map itself sits at depth 32"],
+"C02":["abort_call returns early (before marking the call aborted) when the callee is older than 1.16","reply forwarded when the caller still tracks the serial instead of consulting the aborted flag","queue of synthesized InvalidService replies keyed by caller serial"],
+"C03":["remove_* helpers converted to Option/? so that a self-subscribed owner's disconnect aborts the service cascade","object registered before the fallible reply, recorded for the owner after it","subscribe_event fast path answers Ok before the service lookup"],
+"C04":["subscribe_event fast path treats an all-events subscription as 'already subscribed' and does not record the per-event subscription","disconnect leaves an emptied subscriber set in the service's event map","subscribed_conn_ids() chains per-event sets without de-duplication"],
+"C05":["low-water replenishment in Channel::send_item over-announces capacity to the sender by one","overflow check hoisted above the ownership check in add_capacity","SendItemError::ReceiverClosed handled like exhausted capacity"],
+"C06":["client unregisters a pending channel end on ChannelEndClaimed when the application has dropped it, while its own CloseChannelEnd is in flight","broker-side connection stops reading from the client while a flush to it is pending","broker's SerialMap restarts numbering when empty"],
+"C07":["bulk skip for fixed-size-key Set1 multiplies count and key size in u32","Deserializer::len() starts its skip walker one level too deep","deserialize_string allocates the claimed length before checking the remaining input"],
+"C08":["hand-rolled varint encoder in the message serializer with a wrong 3/4-byte threshold","value-length 0 no longer rejected in value-carrying frames","message-side varint decoder clamps to the bytes remaining"],
+"C09":["claim_channel_end records the end for the connection only after the fallible reply","IntrospectionEntry::remove_conn returns early for connections that never registered the type","num_connections decremented before the 'connection still known' guard"],
+"C10":["cached bus-listener flag replaced by a counter that add_filter and remove_filter classify differently","per-connection de-duplication set updated before the filter/scope check in emit_bus_event","refused StartBusListener (already started) overwrites the active scope"],
+"C11":["callee serial registered with the service before the duplicate-caller-serial check, error path does not undo it","Channel::check_close treats a Closed end like an Unclaimed one","overflow check before the ownership check in add_capacity"],
+"C12":["single-segment fast path in convert_bytes2_to_bytes1 consumes the next segment header","down-converter counts every 1.20 container level twice","1.16 gate for AbortFunctionCall moved to the message handler; disconnect path no longer checks it"],
+"C13":["converter's depth check hoisted out of element loops rejects empty containers at depth 32","single-segment fast path in convert_bytes2_to_bytes1","convert_vec2_to_vec1 patches a one-byte length in place whenever the count fits u8"],
+"C14":["TokioTransport::send_poll_ready own write loop without the Ok(0) => WriteZero arm","Buffered::send_poll_flush returns Ready when its own queue is empty without flushing the inner transport","next_message fast path for frames >=64 KiB forgets to reset the cached length"],
+"C15":["Promise::poll_aborted treats a cancelled abort channel as pending, so aborted() hangs when the client stops","Connection::client_error no longer clears flush_transport","drain_transport split into two phases; a broker Shutdown received during the first is forgotten"],
+"C16":["newtype_properties resolves every hop of a newtype chain in the schema being generated instead of the hop's own schema","unknown field whose value is None is skipped instead of kept by a fallback struct"],
+"C17":["value_inner strips a leading tab like a space while span_inner does not (span shifted on tab-led doc lines)","LinkResolver::resolve uses an expect-ing lookup instead of the fallible one","span of an invalid escape code computed as two bytes"],
+"C18":["formatter collects imports into a BTreeMap by name, dropping duplicate import statements","inline struct/enum bodies collapse to {} when they hold only a fallback","fn_def prints ok only when it has a comment"],
+"C19":["Discoverer::stop no longer clears the queue of already produced events across a restart","AnyObject::service_destroyed returns before removing the per-service record when the object is incomplete","specific-object entries no longer check the object UUID of service events"],
+"C20":["IntrospectionIr::from_dyn computes the reference table in one memoizing walk and gives some references on foreign cycles the root's reference set","referenced types de-duplicated by lexical id instead of by layout (rejected: only shows on graphs with two different descriptions under one schema+type name, which upstream refuses)"],
 }
 T=open('/verif/tools/seed_prompt_template.txt').read()
 pid=sys.argv[1]; wt=sys.argv[2]
